@@ -8,6 +8,7 @@ import (
 	"fmt"
 	"go/types"
 	"math"
+	"net/url"
 	"sort"
 	"strconv"
 	"strings"
@@ -1046,5 +1047,77 @@ func init() {
 			return strconv.FormatInt(asInt64(a[0]), int(b))
 		}
 		return itoa(fr, a)
+	}
+}
+
+// fmt.Sscanf for the simple verbs used by mangle (%s %d), concrete input only.
+func init() {
+	externals["fmt.Sscanf"] = func(fr *frame, a []value) value {
+		in, ok := a[0].(string)
+		if !ok {
+			panic(unsupportedAbort{"fmt.Sscanf on symbolic input"})
+		}
+		format := strArg(a[1])
+		ptrs := a[2].([]value)
+		verbs := strings.Fields(format)
+		toks := strings.Fields(in)
+		n := 0
+		for k, vb := range verbs {
+			if k >= len(toks) || k >= len(ptrs) {
+				return tuple{n, fr.i.errorValue("unexpected EOF")}
+			}
+			p := ptrs[k].(iface).v.(*value)
+			switch vb {
+			case "%s":
+				*p = toks[k]
+			case "%d":
+				v, err := strconv.ParseInt(toks[k], 10, 64)
+				if err != nil {
+					return tuple{n, fr.i.errorValue("expected integer")}
+				}
+				*p = int(v)
+			default:
+				panic(unsupportedAbort{"fmt.Sscanf verb " + vb})
+			}
+			n++
+		}
+		return tuple{n, iface{}}
+	}
+}
+
+func init() {
+	externals["strconv.Atoi"] = func(fr *frame, a []value) value {
+		str, ok := a[0].(string)
+		if !ok {
+			panic(unsupportedAbort{"strconv.Atoi of symbolic string"})
+		}
+		n, err := strconv.Atoi(str)
+		if err != nil {
+			return tuple{0, fr.i.errorValue(err.Error())}
+		}
+		return tuple{n, iface{}}
+	}
+}
+
+// net/url escaping: native on concrete strings (the package's lookup table is built by an
+// init function the engine does not run).
+func init() {
+	externals["net/url.QueryUnescape"] = func(fr *frame, a []value) value {
+		str, ok := a[0].(string)
+		if !ok {
+			panic(unsupportedAbort{"url.QueryUnescape of symbolic string"})
+		}
+		out, err := url.QueryUnescape(str)
+		if err != nil {
+			return tuple{"", fr.i.errorValue(err.Error())}
+		}
+		return tuple{out, iface{}}
+	}
+	externals["net/url.QueryEscape"] = func(fr *frame, a []value) value {
+		str, ok := a[0].(string)
+		if !ok {
+			panic(unsupportedAbort{"url.QueryEscape of symbolic string"})
+		}
+		return url.QueryEscape(str)
 	}
 }
